@@ -135,6 +135,7 @@ def base_state(s):
     s.do(op='trait_put', v=39, name='CUSTOM_T1')
     s.do(op='rp_traits_put', v=39, u='p3', gen=s.gen('p3'), traits=['HW_CPU_X86_AVX'])
     s.do(op='agg_put', v=39, u='p3', gen=s.gen('p3'), aggs=['agg1'])
+    s.do(op='rc_post', v=39, name='CUSTOM_RC1')
     s.put('c3', {'p1': {'VCPU': 1}, 'p3': {'DISK_GB': 5}})
     s.put('c4', {'p3': {'VCPU': 1}}, project='proj2', user='user2', ctype='MIGRATION')
 
@@ -167,6 +168,14 @@ def provider_writers(s, u, gen_of):
                         entries=[]),
         'alloc_put': dict(op='alloc_put', v=39, env=env,
                           **s.entry('c1', {u: {'VCPU': 2}}, cgen=-1)),
+        # the provider named in the inventories *and* in the allocations part
+        'reshape_both': dict(op='reshape', v=39, env=env,
+                             invs=[{'u': u, 'gen': g('reshape_both'),
+                                    'invs': [{'rc': 'VCPU', 'inv': INV(4)},
+                                             {'rc': 'DISK_GB', 'inv': INV(50, reserved=10)},
+                                             {'rc': 'MEMORY_MB', 'inv': INV(64)}]}],
+                             entries=[s.entry('c4', {u: {'VCPU': 1, 'MEMORY_MB': 8}},
+                                              project='proj2', user='user2', ctype='MIGRATION')]),
     }
 
 
@@ -178,7 +187,7 @@ def corpus(kind, s, tier, rnd):
     if kind == 'C05':
         kinds = ['inv_put_all', 'inv_put', 'inv_post', 'inv_del', 'inv_del_all',
                  'rp_traits_put', 'rp_traits_put_same', 'rp_traits_del',
-                 'agg_put', 'agg_put_legacy', 'reshape', 'alloc_put']
+                 'agg_put', 'agg_put_legacy', 'reshape', 'reshape_both', 'alloc_put']
         same = provider_writers(s, 'p3', lambda k: cur)
         stale = provider_writers(s, 'p3', lambda k: cur - 1)
         future = provider_writers(s, 'p3', lambda k: cur + 1)
@@ -188,7 +197,7 @@ def corpus(kind, s, tier, rnd):
                 if a == b == 'alloc_put':
                     rb = dict(op='alloc_put', v=39, env=env, **s.entry('c2', {'p3': {'VCPU': 1}}, cgen=-1))
                 out.append(('%s|%s same-gen' % (a, b), [ra, rb]))
-        carriers = ['inv_put_all', 'inv_put', 'rp_traits_put', 'agg_put', 'reshape']
+        carriers = ['inv_put_all', 'inv_put', 'rp_traits_put', 'agg_put', 'reshape', 'reshape_both']
         for a in carriers:
             for b in carriers:
                 if tier == 'thorough' or rnd.random() < 0.3:
@@ -244,6 +253,36 @@ def corpus(kind, s, tier, rnd):
                     out.append(('%s|%s' % (a, b), [dict(vs[a]), dict(vs[b])]))
         out.append(('put_null|put_null_b|put_gen0', [dict(new_variants[k]) for k in ('put_null', 'put_null_b', 'put_gen0')]))
         out.append(('put_cur|put_cur_b|put_cur_empty', [dict(old_variants[k]) for k in ('put_cur', 'put_cur_b', 'put_cur_empty')]))
+    elif kind == 'C08':
+        from pv.scenarios import INV
+
+        def put(c, allocs, cgen=None, **kw):
+            return dict(op='alloc_put', v=39, env=env, **s.entry(c, allocs, cgen=cgen, **kw))
+        # p2: child of p1 with DISK_GB 100, nobody uses it; p4 does not exist yet
+        removers = {
+            'del_p2': dict(op='rp_delete', v=39, u='p2'),
+            'del_inv_p2_disk': dict(op='inv_del', v=39, u='p2', rc='DISK_GB'),
+            'del_invs_p2': dict(op='inv_del_all', v=39, u='p2'),
+            'drop_disk_p2': dict(op='inv_put_all', v=39, u='p2', gen=s.gen('p2'), invs=[{'rc': 'VCPU', 'inv': INV(2)}]),
+            'reshape_drop_disk_p2': dict(op='reshape', v=39, env=env,
+                                         invs=[{'u': 'p2', 'gen': s.gen('p2'), 'invs': []}], entries=[]),
+            'del_class': dict(op='rc_del', v=39, name='CUSTOM_RC1'),
+            'del_trait': dict(op='trait_del', v=39, name='CUSTOM_T1'),
+            'del_p1': dict(op='rp_delete', v=39, u='p1'),
+        }
+        users = {
+            'use_p2_disk': put('c1', {'p2': {'DISK_GB': 5}}, -1),
+            'child_of_p2': dict(op='rp_create', v=39, u='p4', name='p4', parent='p2'),
+            'move_under_p2': dict(op='rp_update', v=39, u='p3', name='p3', parent='p2'),
+            'inv_with_class': dict(op='inv_post', v=39, u='p2', rc='CUSTOM_RC1', inv=INV(3)),
+            'trait_on_p2': dict(op='rp_traits_put', v=39, u='p2', gen=s.gen('p2'), traits=['CUSTOM_T1']),
+            'post_use_p2': dict(op='alloc_post', v=39, env=env,
+                                entries=[s.entry('c1', {'p2': {'DISK_GB': 1}}, cgen=-1),
+                                         s.entry('c2', {'p1': {'VCPU': 1}}, cgen=-1)]),
+        }
+        for a in sorted(removers):
+            for b in sorted(users):
+                out.append(('%s|%s' % (a, b), [dict(removers[a]), dict(users[b])]))
     elif kind == 'C07':
         from pv.scenarios import INV
 
